@@ -188,6 +188,10 @@ class CallMixin(object):
             # mutating method on an l-value container: write back
             if f.attr in MUTATORS and self.is_lvalue(f.value):
                 return self.mutating_call(e, st)
+        if isinstance(f, ast.Name) and f.id == 'dict' and 'dict' not in st.env and len(e.args) == 1 and \
+                isinstance(e.args[0], (ast.ListComp, ast.GeneratorExp)) and \
+                isinstance(e.args[0].elt, ast.Tuple) and len(e.args[0].elt.elts) == 2:
+            return self.dict_of_pairs(e, st)
         # ---- general
         out = []
         for r in self.ev(f, st):
@@ -196,6 +200,77 @@ class CallMixin(object):
                 continue
             out += self.ev_args(e, r.st, lambda s2, args, kw, star, r=r: self.apply(
                 s2, r.val, args, kw, e, star))
+        return self.run_ghost_at(e, out)
+
+    def run_ghost_at(self, e, out):
+        """sidecar ghost statements attached to a call (contract.ghost_at): executed after the
+        call returned normally, so the ghost update is exactly as path-sensitive as the real call"""
+        c = self.contract
+        if c is None or not c.ghost_at or self.call_depth or self.spec_mode:
+            return out
+        f = e.func
+        name = f.attr if isinstance(f, ast.Attribute) else (f.id if isinstance(f, ast.Name) else None)
+        stmts = c.ghost_at.get(name)
+        if not stmts:
+            return out
+        res = []
+        for r in out:
+            if r.exc is not None:
+                res.append(r)
+                continue
+            st = r.st
+            for text in stmts:
+                tree = ast.parse(text.strip()).body[0]
+                if not (isinstance(tree, ast.Assign) and isinstance(tree.targets[0], ast.Name) and
+                        tree.targets[0].id in self.spec.ghosts):
+                    self.oos('ghost_at statement must assign a declared ghost: %r' % text, e)
+                val = self.sp(tree.value, st)
+                st = self.ghost_set(st, tree.targets[0].id, val)
+            res.append(Res(st, r.val))
+        return res
+
+    def dict_of_pairs(self, e, st):
+        """dict((k(x), v(x)) for x in xs): result has exactly the keys k(x); the value of a key is
+        v(x) for SOME x with that key (python: the last one) -- a sound over-approximation"""
+        comp = e.args[0]
+        g = comp.generators[0]
+        if len(comp.generators) != 1 or g.ifs:
+            self.oos('dict() over a filtered / nested comprehension', e)
+        out = []
+        for r in self.ev(g.iter, st):
+            if r.exc is not None:
+                out.append(r)
+                continue
+            for s2, inf in self.iterable(r.st, r.val, g.iter):
+                if inf is None:
+                    out += self.raise_(s2, 'TypeError', e)
+                    continue
+                if inf['static'] is not None:
+                    self.oos('dict() over a static sequence', e)
+                n = inf['len']
+                j = z3.Int(fresh_name('dj'))
+                sb = self.bind_target(s2.copy(), g.target, inf['elem'](s2, j), g)
+                self.spec_mode += 1
+                try:
+                    kv = self.ev1(comp.elt.elts[0], sb)
+                    vv = self.ev1(comp.elt.elts[1], sb)
+                finally:
+                    self.spec_mode -= 1
+                if len(zsorts(kv.ty)) != 1:
+                    self.oos('dict key sort %r' % (kv.ty,), e)
+                if len(zsorts(vv.ty)) != 1:
+                    s2b, vv = self.to_val_deep(sb, vv)
+                d = fresh(TDict(kv.ty, vv.ty), 'dictof')
+                wit = z3.Function(fresh_name('dwit'), kv.z.sort(), z3.IntSort())
+                k = z3.Const(fresh_name('k'), kv.z.sort())
+                at = lambda t, x: z3.substitute(t, (j, x))
+                facts = [FA([j], z3.Implies(z3.And(0 <= j, j < n), z3.Select(d.t[0], kv.z)),
+                            patterns=[]),
+                         FA([k], z3.Implies(z3.Select(d.t[0], k), z3.And(
+                             0 <= wit(k), wit(k) < n, at(kv.z, wit(k)) == k,
+                             z3.Select(d.t[1], k) == at(vv.z, wit(k)))), patterns=[z3.Select(d.t[0], k)]),
+                         d.t[-1] <= n] + self.dict_wf(d)
+                out += self.ok(s2.assume(*facts), d)
         return out
 
     def ev_args(self, e, st, k):
@@ -664,6 +739,11 @@ class CallMixin(object):
                 # method of an unknown python object
                 cn = '$method.' + name
                 c2 = self.spec.contracts.get(cn) or self.spec.contracts.get('$method')
+                if c2 is None and (name in self.STR_METHODS or name in self.OBJ_METHODS or
+                                   name in self.LIST_METHODS):
+                    # A-NOSTRLIKE: opaque objects do not implement str / dict / list method names
+                    out += self.raise_(s2, 'AttributeError', node)
+                    continue
                 if c2 is None:
                     self.oos('method %s of an unknown object (no $method contract)' % name, node)
                 out += self.call_contract(s2, c2, [c], {}, node)
@@ -966,7 +1046,10 @@ class CallMixin(object):
                 vt = VAL
             d = self.empty_dict(TDict(STR, vt))
             for k, v in kw.items():
-                d = self.dict_set(d, z3.StringVal(k), self.coerce(v, vt) or self.to_val_deep(st, v))
+                cv = self.coerce(v, vt)
+                if cv is None:
+                    st, cv = self.to_val_deep(st, v)
+                d = self.dict_set(d, z3.StringVal(k), cv)
             return self.ok(st, d)
         a = args[0]
         if isinstance(a.ty, TDict):
@@ -1195,10 +1278,12 @@ class CallMixin(object):
             self.oos('sort key of sort %r' % (ki.ty,), node)
         inr = lambda x: z3.And(0 <= x, x < n)
         facts = [
-            z3.ForAll([i], z3.Implies(inr(i), z3.And(inr(perm(i)), res[i] == z3.Select(l.t[0], perm(i)),
-                                                     inv(perm(i)) == i))),
-            z3.ForAll([i], z3.Implies(inr(i), z3.And(inr(inv(i)), perm(inv(i)) == i))),
-            z3.ForAll([i, j], z3.Implies(z3.And(0 <= i, i < j, j < n), le)),
+            FA([i], z3.Implies(inr(i), z3.And(inr(perm(i)), res[i] == z3.Select(l.t[0], perm(i)),
+                                              inv(perm(i)) == i)), patterns=[res[i], perm(i)]),
+            FA([i], z3.Implies(inr(i), z3.And(inr(inv(i)), perm(inv(i)) == i)),
+               patterns=[inv(i), z3.Select(l.t[0], i)]),
+            FA([i, j], z3.Implies(z3.And(0 <= i, i < j, j < n), le),
+               patterns=[z3.MultiPattern(res[i], res[j])]),
         ]
         return self.ok(st.assume(*facts), SV(l.ty, [res, n]))
 
